@@ -200,9 +200,11 @@ public:
         for (;;) {
             desired = expected;
             desired.inc_vinsert_delete();
+            YK_VERIF(k_cas, this, f_version, 0);
             if (body_.compare_exchange_weak(expected, desired,
                                             std::memory_order_acq_rel,
                                             std::memory_order_acquire)) {
+                YK_VERIF(k_cas_ok, this, f_version, 0);
                 break;
             }
         }
@@ -214,9 +216,11 @@ public:
         for (;;) {
             desired = expected;
             desired.set_border(tf);
+            YK_VERIF(k_cas, this, f_version, 0);
             if (body_.compare_exchange_weak(expected, desired,
                                             std::memory_order_acq_rel,
                                             std::memory_order_acquire)) {
+                YK_VERIF(k_cas_ok, this, f_version, 0);
                 break;
             }
         }
@@ -228,9 +232,11 @@ public:
         for (;;) {
             desired = expected;
             desired.set_deleted(tf);
+            YK_VERIF(k_cas, this, f_version, 0);
             if (body_.compare_exchange_weak(expected, desired,
                                             std::memory_order_acq_rel,
                                             std::memory_order_acquire)) {
+                YK_VERIF(k_cas_ok, this, f_version, 0);
                 break;
             }
         }
@@ -242,9 +248,11 @@ public:
         for (;;) {
             desired = expected;
             desired.set_inserting_deleting(tf);
+            YK_VERIF(k_cas, this, f_version, 0);
             if (body_.compare_exchange_weak(expected, desired,
                                             std::memory_order_acq_rel,
                                             std::memory_order_acquire)) {
+                YK_VERIF(k_cas_ok, this, f_version, 0);
                 break;
             }
         }
@@ -256,9 +264,11 @@ public:
         for (;;) {
             desired = expected;
             desired.set_root(tf);
+            YK_VERIF(k_cas, this, f_version, 0);
             if (body_.compare_exchange_weak(expected, desired,
                                             std::memory_order_acq_rel,
                                             std::memory_order_acquire)) {
+                YK_VERIF(k_cas_ok, this, f_version, 0);
                 break;
             }
         }
@@ -270,9 +280,11 @@ public:
         for (;;) {
             desired = expected;
             desired.set_splitting(tf);
+            YK_VERIF(k_cas, this, f_version, 0);
             if (body_.compare_exchange_weak(expected, desired,
                                             std::memory_order_acq_rel,
                                             std::memory_order_acquire)) {
+                YK_VERIF(k_cas_ok, this, f_version, 0);
                 break;
             }
         }
@@ -295,22 +307,27 @@ public:
                 expected = get_body();
                 if (expected.get_locked()) {
                     if (i >= 10) { break; }
+                    YK_VERIF(k_spin, this, f_version, 0);
                     _mm_pause();
                     continue;
                 }
                 desired = expected;
                 desired.set_locked(true);
+                YK_VERIF(k_cas, this, f_version, 0);
                 if (body_.compare_exchange_weak(expected, desired,
                                                 std::memory_order_acq_rel,
                                                 std::memory_order_acquire)) {
+                    YK_VERIF(k_cas_ok, this, f_version, 0);
                     return;
                 }
             }
+            YK_VERIF(k_sleep, this, f_version, 0);
             std::this_thread::sleep_for(std::chrono::microseconds(1));
         }
     }
 
     [[nodiscard]] node_version64_body get_body() const {
+        YK_VERIF(k_load, this, f_version, 0);
         return body_.load(std::memory_order_acquire);
     }
 
@@ -335,6 +352,7 @@ public:
                 !sv.get_splitting()) {
                 return sv;
             }
+            YK_VERIF(k_spin, this, f_version, 0);
             _mm_pause();
         }
     }
@@ -354,6 +372,7 @@ public:
     void init() { set_body(node_version64_body()); }
 
     void set_body(const node_version64_body newv) {
+        YK_VERIF(k_store, this, f_version, 0);
         body_.store(newv, std::memory_order_release);
     }
 
@@ -375,9 +394,11 @@ public:
                 desired.set_splitting(false);
             }
             desired.set_locked(false);
+            YK_VERIF(k_cas, this, f_version, 0);
             if (body_.compare_exchange_weak(expected, desired,
                                             std::memory_order_acq_rel,
                                             std::memory_order_acquire)) {
+                YK_VERIF(k_cas_ok, this, f_version, 0);
                 break;
             }
         }
